@@ -168,7 +168,8 @@ func genC17(rt *rapid.T, st *Stats) *ScaleCase {
 	dyadicOnly = true // exact power-of-two scaling is only claimed on values that keep the arithmetic exact
 	defer func() { dyadicOnly = false }()
 	maxN, maxM, _ := sizeRegime(rt, 930, 65, 5)
-	_, ies, _ := genGraph(rt, GraphSpec{MaxN: maxN, MaxM: maxM, Families: allFam, Union: true, SelfLoops: true, Parallel: true})
+	// no thin giants here: up to 64 copies of a job run under the race detector
+	_, ies, _ := genGraph(rt, GraphSpec{MaxN: maxN, MaxM: maxM, Families: allFam, Union: true, SelfLoops: true, Parallel: true, NoGiant: true})
 	c := &Case{Edges: toEdges(ies, nameScheme(rt))}
 	szMode := 0
 	if rapid.Bool().Draw(rt, "all_sized") {
